@@ -294,6 +294,8 @@ def write_touchstone(rng, net, version, unit='hz', fmt='ri', order='12_21', mfor
         if n == 2:
             out.append(case('[Two-Port Data Order]') + sp() + order + cm())
         out.append(case('[Number of Frequencies]') + sp() + str(len(net['freqs'])) + cm())
+        if noise and n == 2:
+            out.append(case('[Number of Noise Frequencies]') + sp() + str(len(noise)) + cm())
         if any(z != net['z0'][0] for z in net['z0']) or (messy and rng.random() < 0.4):
             vals = [fmt_num(rng, z.real, 'r') for z in net['z0']]
             if messy and n > 2 and rng.random() < 0.5:
@@ -303,8 +305,6 @@ def write_touchstone(rng, net, version, unit='hz', fmt='ri', order='12_21', mfor
                 out.append(case('[Reference]') + sp() + sp().join(vals))
         if mformat != 'full' or (messy and rng.random() < 0.3):
             out.append(case('[Matrix Format]') + sp() + case(mformat))
-        if messy and rng.random() < 0.2:
-            out += [case('[Begin Information]'), 'free text', case('[End Information]')]
         out.append(case('[Network Data]') + cm())
     scale = UNITS[unit]
     for f, M in zip(net['freqs'], net['data']):
@@ -336,7 +336,7 @@ def write_touchstone(rng, net, version, unit='hz', fmt='ri', order='12_21', mfor
                     out.append(rng.choice(['', '   ', '! in between']))
     if noise and n == 2:
         if version == 2:
-            out.append('[Noise Data]')
+            out.append(case('[Noise Data]'))
         for f in noise:
             out.append('%s 1.5 0.5 20 0.3' % fmt_num(rng, f / scale, 'r'))
     if version == 2 and (not messy or rng.random() < 0.7):
